@@ -94,6 +94,24 @@ Theorem transfer_ids_never_reused : forall s o, last_tx s <= last_tx (fst (step 
 Proof. exact last_tx_monotone_proof. Qed.
 Print Assumptions transfer_ids_never_reused.
 
+(** What a pending transfer owes (amount and the tax charged when it was sent) is fixed at send
+    time: no operation — in particular no governance change of the tax rate / exemption list, [OGov],
+    which does not touch the bridge's fund state at all — rewrites a pending record; a record pending
+    after a step was pending before it or was just created by a successful send from that send's own
+    amount and tax.  With the two theorems above (refund and burn are [owed] of the STORED record)
+    the refund always equals what was locked, whatever the settings are at cancel time. *)
+Theorem pending_records_immutable : forall s o s' out t,
+  step s o = (s', out) -> In t (pending s') ->
+  In t (pending s) \/
+  exists u c d a tax f k, o = OSend u c d a tax f /\ out = Ok /\ erc20_of (table s) c d = Some k /\
+                          t = mkT (last_tx s + 1) u c k a tax.
+Proof. exact pending_records_immutable_proof. Qed.
+Print Assumptions pending_records_immutable.
+
+Theorem governance_leaves_bridge_funds_alone : forall s, step s OGov = (s, Ok).
+Proof. reflexivity. Qed.
+Print Assumptions governance_leaves_bridge_funds_alone.
+
 (** 3. Total supply changes only by attested deposits (+ amount, once per handler run that
     succeeded) and attested executed batches (- amount - tax of the batch's transfers).
     [deposits_of] / [executed_of] read the history: they add, for every ODeposit / OExecuted
